@@ -77,6 +77,9 @@ func (c *collector) withBuffer(fn func([]byte) error) error {
 type collectorID struct {
 	Remote  string
 	GroupID GroupID
+	// IsReply distinguishes replies, which carry the GroupID chosen by the asker,
+	// from messages originated by Remote, which carry a GroupID chosen by Remote.
+	IsReply bool
 }
 
 type fragLayer struct {
@@ -97,8 +100,8 @@ func newFragLayer() *fragLayer {
 	return fl
 }
 
-func (fl *fragLayer) handlePart(remote p2p.Addr, gid GroupID, partIndex, partCount uint16, totalSize uint32, body []byte, fn func([]byte) error) error {
-	cid := collectorID{Remote: remote.String(), GroupID: gid}
+func (fl *fragLayer) handlePart(remote p2p.Addr, gid GroupID, isReply bool, partIndex, partCount uint16, totalSize uint32, body []byte, fn func([]byte) error) error {
+	cid := collectorID{Remote: remote.String(), GroupID: gid, IsReply: isReply}
 	if partCount < 2 && !disableFastPath {
 		return fn(body)
 	}
